@@ -291,7 +291,7 @@ impl<'t, 'a> TyGen<'t, 'a> {
             return self.atom();
         }
         let paren = |s: String, need: bool| if need { format!("({})", s) } else { s };
-        match self.t.pick(16) {
+        match self.t.pick(17) {
             0 | 1 => self.atom(),
             2 | 3 => {
                 let a = self.ty(depth - 1, 1);
@@ -376,6 +376,16 @@ impl<'t, 'a> TyGen<'t, 'a> {
                 let s = format!("forall {} . {{ x : {}, y : {} | {} }} -> Int", r, f1, f2, r);
                 paren(s, prec >= 1)
             }
+            15 => {
+                // open tuple: a record with the fields _0, _1 and a row tail (the type of
+                // `\\p -> p._0`); printed as `(a | r)`
+                self.features.push("open_tuple_row");
+                let r = format!("r{}", self.generics.len());
+                let f1 = self.ty(depth - 1, 0);
+                let f2 = self.ty(depth - 1, 0);
+                let s = format!("forall {} . {{ _0 : {}, _1 : {} | {} }} -> Int", r, f1, f2, r);
+                paren(s, prec >= 1)
+            }
             14 => {
                 // effect row applied to a type
                 self.features.push("effect_row");
@@ -398,6 +408,7 @@ const PRELUDE_DECLS: &str = "let { Eff } = import! std.effect\nlet { Result } = 
 fn gen_case(t: &mut Tape) -> (String, Vec<&'static str>) {
     let mut decl_src = String::new();
     let mut decls = vec![];
+    let mut decl_feats: Vec<&'static str> = vec![];
     let nd = t.pick(4);
     for k in 0..nd {
         let np = t.pick(3);
@@ -423,13 +434,15 @@ fn gen_case(t: &mut Tape) -> (String, Vec<&'static str>) {
             }
             _ => g.ty(2, 0),
         };
+        decl_feats.extend(g.features.iter().copied());
         decl_src.push_str(&format!("type {}{} = {}\n", name, params.iter().map(|p| format!(" {}", p)).collect::<String>(), body));
         decls.push((name, np));
     }
     let mut g = TyGen { t, decls, generics: vec![], features: vec![] };
     let depth = 1 + g.t.pick(4);
     let ty = g.ty(depth, 0);
-    let feats = g.features.clone();
+    let mut feats = g.features.clone();
+    feats.extend(decl_feats);
     let kind = g.t.pick(4);
     let src = if kind == 0 && nd > 0 {
         // a module-like record exporting the declared types: type fields in the printed type
@@ -571,6 +584,10 @@ impl Property for C18 {
                 }
                 if has_variant {
                     fs.push("variant".into());
+                }
+                if feats.iter().any(|f| f == "open_tuple_row") && text.contains('|') {
+                    // an open tuple row is printed as `(a, b | r)`, which is not type syntax (KF-C18-02)
+                    fs.push("open_tuple_row_printed_with_parentheses".into());
                 }
                 if has_tfield && text.contains("= |") {
                     // a type field whose definition is a variant is printed as `T = | A | B`,
